@@ -162,6 +162,24 @@ fn check_one(rep: &mut Report, w: &mut World, text: &str, parent: Option<(&str, 
     if got != Ok(want) {
         rep.fail(if got.is_err() { "panic" } else { "oracle" }, &class, ctx.clone(), &res_str(&Ok(want)), &res_str(&got));
     }
+    // the other resolver of the same offset, `Text::absolute_offset` (the trait method, on the resource or on the parent's
+    // text selection): the same range, or refused
+    {
+        let store = &w.store;
+        let via_trait = guarded(std::panic::AssertUnwindSafe(|| -> Option<(usize, usize)> {
+            let res = store.resource("r").unwrap();
+            let o = Offset::new(c1, c2);
+            let r = match parent {
+                None => Text::absolute_offset(&res, &o),
+                Some((_, (pb, pe))) => { let t = res.textselection(&Offset::simple(pb, pe)).expect("parent selection"); Text::absolute_offset(&t, &o) }
+            };
+            r.ok().and_then(|x| match (x.begin, x.end) { (Cursor::BeginAligned(b), Cursor::BeginAligned(e)) => Some((b, e)), _ => None })
+        }));
+        rep.count("offset:trait-absolute-offset");
+        if via_trait != Ok(want) {
+            rep.fail(if via_trait.is_err() { "panic" } else { "oracle" }, &format!("trait-absolute-offset/{}", match (&want, &via_trait) { (None, Ok(Some(_))) => "accepted-invalid", (Some(_), Ok(None)) => "rejected-valid", (_, Err(_)) => "panic", _ => "wrong-range" }), ctx.clone(), &res_str(&Ok(want)), &res_str(&via_trait));
+        }
+    }
     let mut result = None;
     if let (Some((b, e)), Ok(Some(_))) = (want, &got) {
         // the text is exactly those code points
